@@ -516,7 +516,7 @@ class Infos:
         return (
             np.sqrt(self.mu / (self.kep.a * (1 - self.kep.e ** 2)))
             * (1 + self.kep.e * np.cos(self.kep.nu))
-            / self.kep.nu
+            / self.v
         )
 
     @property
@@ -525,7 +525,7 @@ class Infos:
             np.sqrt(self.mu / (self.kep.a * (1 - self.kep.e ** 2)))
             * self.kep.e
             * np.sin(self.kep.nu)
-            / self.kep.nu
+            / self.v
         )
 
     @property
